@@ -56,8 +56,9 @@ def pullGauge (s : State) (now : Int) (released : Coins) (g : Gauge) : Except St
     let balances := s.bank.filter (fun p => p.1.1 = g.account ∧ p.2 ≠ 0)
     if balances.isEmpty then .ok ({ s with gauges := AMap.erase s.gauges g.id }, released)
     else
-      let totalUs := Int.tdiv (timeSub g.endT g.startT) 1000
-      let leftUs := Int.tdiv (timeSub g.endT now) 1000
+      -- whole microseconds of the instants themselves (`UnixMicro`), no `time.Duration` saturation
+      let totalUs := Int.tdiv g.endT 1000 - Int.tdiv g.startT 1000
+      let leftUs := Int.tdiv g.endT 1000 - Int.tdiv now 1000
       match Dec.quo? (Dec.ofInt leftUs) (Dec.ofInt totalUs) with
       | none => .error "division by zero (gauge shorter than a microsecond)"
       | some q =>
